@@ -5,8 +5,8 @@ namespace XDoc
 open Xmi
 
 /-- a token that is the fragment text of a valid path resolves, in the loaded forest, to that path -/
-theorem resolve_fragment (mm : MMX) (o : Opts) (hmm : MMOK mm) (single : Bool) (roots : List (SNode Path))
-    (g : Path → Str) (hwf : ∀ r ∈ roots, WFG mm (fun p => Word mm.ws (g p)) r)
+theorem resolve_fragment {P : Path → Prop} (mm : MMX) (o : Opts) (hmm : MMOK mm) (single : Bool) (roots : List (SNode Path))
+    (g : Path → Str) (hwf : ∀ r ∈ roots, WFG mm P r)
     (p : Path) (hvalid : (nodeAt roots p).isSome = true)
     (hnames : ∀ s ∈ p.segs, NameOK s.1 ∧ '#' ∉ s.1) (hroot : single = true → p.root = 0) :
     resolveTok mm o parsePath (roots.map fun r => eff mm o true (mapT g r)) (renderPath single p) = some p := by
@@ -23,7 +23,7 @@ theorem resolve_fragment (mm : MMX) (o : Opts) (hmm : MMOK mm) (single : Bool) (
     · exact hvalid
     · intro r hr
       obtain ⟨r0, hr0, rfl⟩ := List.mem_map.mp hr
-      exact WFG_mapT mm (fun p => Word mm.ws (g p)) (Word mm.ws) g (fun _ h => h) r0 (hwf r0 hr0)
+      exact WFG_mapT mm P (fun _ => True) g (fun _ _ => trivial) r0 (hwf r0 hr0)
   rw [hE]
   cases hn : nodeAt ((roots.map (mapT g)).map (eff mm o true)) p with
   | none => rw [hn] at hsome; cases hsome
